@@ -70,11 +70,17 @@ def cmd_import(pid, k, src):
                 place.append([f, "cmd_seed_demo/" + f])
         run = "go run ./cmd_seed_demo"
     elif tests:
-        m = re.search(r"-run\s+(\S+)\s+(\./\S+)", dc)
-        pkg = m.group(2).rstrip("/") if m else None
+        mr = re.search(r"-run[ =]+'?([A-Za-z0-9_$^|]+)'?", dc)
+        mp = re.search(r"go test[^\n]*?\s(\./[A-Za-z0-9_/]+)", dc)
+        pkg = mp.group(1).rstrip("/") if mp else None
+        if pkg is None:   # guess the package from the test file's package clause
+            src = open(os.path.join(dst, "demo", tests[0])).read()
+            pk = re.search(r"^package\s+(\w+)", src, re.M).group(1).replace("_test", "")
+            pkg = {"tree": "./html/tree", "boxes": "./html/boxes", "parser": "./css/parser", "selector": "./css/selector",
+                   "validation": "./css/validation", "svg": "./svg", "utils": "./utils", "matrix": "./matrix"}.get(pk)
         for t in [f for f in demo if f.endswith(".go")]:
             place.append([t, pkg.lstrip("./") + "/" + t])
-        run = "go test -vet=off -count=1 -run %s %s/" % (m.group(1), pkg)
+        run = "go test -vet=off -count=1 %s %s/" % (("-run " + mr.group(1)) if mr else "", pkg)
     meta["demo_norm"] = {"place": place, "run": run}
     json.dump(meta, open(os.path.join(dst, "meta.json"), "w"), indent=1)
     print("imported", dst, meta["demo_norm"])
